@@ -13,6 +13,7 @@ import numpy as np
 import common as C
 import fuzzylite as fl
 import gen_engines as G
+from streams import wave5x as S_W5
 
 PID = "C14"
 MODULES = ["FlVerif.Props.C14"]
@@ -37,6 +38,8 @@ TIE_A += [f"code:fuzzylite.importer.FllImporter.{m}" for m in (
     "input_variable", "output_variable", "rule_block", "_process", "engine")]
 # `Op.str` and the dispatch of `FllExporter.to_string` (theorems `code_opStr`, `code_fllToString`)
 TIE_A += ["code:fuzzylite.operation.Operation.str", "code:fuzzylite.exporter.FllExporter.to_string"]
+# fifth wave: `Engine.configure` (theorem `code_engineConfigure` + laws) and the class dispatch `FllImporter.component`
+TIE_A += ["code:fuzzylite.engine.Engine.configure", "code:fuzzylite.importer.FllImporter.component"]
 # the importer's factory look-ups (theorems `code_importTnorm` / `code_importSnorm`; the callee is tied in C17)
 TIE_A += ["code:fuzzylite.importer.FllImporter.tnorm", "code:fuzzylite.importer.FllImporter.snorm",
           "code:fuzzylite.factory.ConstructionFactory.construct"]
@@ -46,6 +49,7 @@ RULE = ("generated engines over every registered term class (incl. Discrete, Lin
         "inf defaults, lock flags x decimals 1..9 x input rows; mutated texts (number formats, comments, order, duplicates, "
         "omitted lines, malformed); every component printer / parser on its own.  non-trivial: the case exercises a height / "
         "weight decision, a non-default parameter, or a rejected text; distinct = distinct canonical case")
+RULE += (" Stream `configure` (fv/streams/wave5x.py): Engine.configure with None / registered names / unregistered names / objects for each of the six operators, against Op.Engine.configure; after a raise no operator of the engine may have changed.")
 ASSUMPTIONS = ["CPython float(text) / format(x, '.df') and the nearest-double step are trusted (the model's numbers after an import are "
                "exact decimals); heights / weights whose printed form is at exact distance atol from 1 (0.999 at 3+ decimals) are "
                "compared on the implementation only (float64 and exact arithmetic disagree on is_close there)",
@@ -238,6 +242,8 @@ def structure_diff(e, e2, d: int, exact: bool):
 
 def oracle(case):
     """the property on the real code; deterministic and replayable from the JSON case"""
+    if case.get("stream") == S_W5.CONFIGURE:
+        return S_W5.oracle(case)          # Engine.configure (stream `configure`)
     try:
         return oracle_(case)
     except Exception as ex:  # noqa: BLE001
@@ -859,6 +865,8 @@ def correspond(ctx):
         if len(mism) > 25:
             break
     probes(ctx)
+    # Engine.configure against Op.Engine.configure (model of the code tie `code_engineConfigure`)
+    mism += S_W5.run_configure(ctx)
     return mism
 
 
